@@ -302,6 +302,13 @@ impl<F: Float, L: Label + std::fmt::Debug> TreeNode<F, L> {
                 // Take the midpoint from this value and the next one as split_value
                 split_value = (split_value + sorted_index.sorted_values[i + 1].1) / F::cast(2.0);
 
+                // The midpoint of two neighbouring floating point numbers is rounded to one of
+                // them. The split value has to stay below the next value, otherwise the
+                // observations carrying the next value would be sent to the left subtree as well
+                if split_value >= sorted_index.sorted_values[i + 1].1 {
+                    split_value = sorted_index.sorted_values[i].1;
+                }
+
                 // override best indices when score improved
                 best = match best.take() {
                     None => Some((feature_idx, split_value, score)),
@@ -639,7 +646,7 @@ fn make_prediction<F: Float, L: Label>(
 ) -> L {
     if node.leaf_node {
         node.prediction.clone()
-    } else if x[node.feature_idx] < node.split_value {
+    } else if x[node.feature_idx] <= node.split_value {
         make_prediction(x, node.left_child.as_ref().unwrap())
     } else {
         make_prediction(x, node.right_child.as_ref().unwrap())
